@@ -469,12 +469,20 @@ func ValidUTF8(p []byte) bool {
 
 // ValidTopicName returns whether the bytes is a valid non-shared topic filter.[MQTT-4.7.1-1].
 func ValidTopicName(mustUTF8 bool, p []byte) bool {
+	// a topic name has at least one character [MQTT-4.7.3-1]
+	if len(p) == 0 {
+		return false
+	}
 	for len(p) > 0 {
 		ru, size := utf8.DecodeRune(p)
 		if mustUTF8 && ru == utf8.RuneError && size <= 1 {
 			return false
 		}
 		if size == 1 {
+			// the null character is not allowed [MQTT-4.7.3-2]
+			if p[0] == 0 {
+				return false
+			}
 			//主题名不允许使用通配符
 			if p[0] == byte('+') || p[0] == byte('#') {
 				return false
@@ -505,7 +513,7 @@ func ValidV5Topic(p []byte) bool {
 					if subp[0] == '/' {
 						return ValidTopicFilter(true, subp[1:])
 					}
-					if subp[0] == byte('+') || subp[0] == byte('#') {
+					if subp[0] == byte('+') || subp[0] == byte('#') || subp[0] == 0 {
 						return false
 					}
 				}
@@ -537,6 +545,9 @@ func ValidTopicFilter(mustUTF8 bool, p []byte) bool {
 			return false
 		}
 		plen := len(p)
+		if p[0] == 0 { // the null character is not allowed [MQTT-4.7.3-2]
+			return false
+		}
 		if p[0] == byte('#') && plen != 1 { // #一定是最后一个字符
 			return false
 		}
